@@ -13,6 +13,20 @@ def main(d):
     d = os.path.abspath(d)
     case = json.load(open(os.path.join(d, "case.json")))
     prop = case.get("property", "?")
+    if case.get("key", {}).get("kind") == "expansion-differs-under-identical-schedule":
+        import props_misc
+        text = case["detail"]["declaration_full"]
+        hits = 0
+        for _ in range(3):
+            r = props_misc.run_orders([text])[0]
+            if any("same schedule" in e for e in r["errors"]) or r["distinct"] != 1:
+                hits += 1
+        log("explorations in which one schedule gave different expansions (or several expansions exist): %d of 3" % hits)
+        if hits:
+            print("VIOLATION property=%s replay=%s" % (prop, d))
+            return 1
+        log("replay passes on the current tree")
+        return 0
     if case.get("key", {}).get("kind") == "expansion-depends-on-map-iteration-order":
         # replay = re-explore all iteration orders for the recorded declaration, twice
         import props_misc
